@@ -429,10 +429,16 @@ def runLive06 (kv : List (String × String)) : IO Res := do
     match getStackInfo ms 4096 sp with
     | .ok (valid, len) =>
       let (rs, rl) := capRegion valid len sp (maxStackLen lc.cfg.limit extra i crashThread)
-      if (rs, rl) != (valid, len) then tags := "thread.shortened" :: tags
+      if (rs, rl) != (valid, len) then tags := (if sp < valid then "live.guard.shortened" else "thread.shortened") :: tags
       if i ≥ 20 then tags := "thread.late" :: tags
       -- the property itself, on the implementation's record
-      if !(t.stackStart ≤ sp && sp < t.stackStart + t.stackSize) then
+      if sp < valid then
+        -- the stack pointer is in a guard page or unmapped: the region begins at the first plausible stack
+        -- mapping above it (shortened or not)
+        tags := "live.sp.guard" :: tags
+        if t.stackStart != valid then
+          return .propfail s!"thread #{i} ({t.tid}): stack pointer {sp} lies below the first plausible stack mapping {valid}, but the captured region begins at {t.stackStart}" tags
+      else if !(t.stackStart ≤ sp && sp < t.stackStart + t.stackSize) then
         return .propfail s!"thread #{i} ({t.tid}): captured stack [{t.stackStart},+{t.stackSize}) does not contain the stack pointer {sp}" tags
       if t.stackSize < len then
         -- shortened: only with a limit, at list position ≥ 20, never the crash-context thread, ≤ 2 KiB
